@@ -52,7 +52,7 @@ def run(tier, seed, only=None):
            ot.TrackedArray.append, ot.TrackedArray.insert, ot.TrackedArray.__setitem__, ot.TrackedArray.__contains__, ot.validate_item,
            core.Entity._attr_changed_, core.Attribute.__set__, dp.JsonConverter.validate, dp.JsonConverter.dbval2val,
            dp.ArrayConverter.validate, dp.ArrayConverter.dbval2val)
-    T = 150 if tier == 'quick' else 900
+    T = 150 if tier == 'quick' else 1200
     names = list(h.HARNESSES)
     if tier == 'quick':
         names = [n for n in names if not n.startswith('l_slice_') or n[len('l_slice_'):] in QUICK_SLICE_TARGETS]
